@@ -446,6 +446,15 @@ PROPS['C08'] = dict(
           'client call %s: same result / client-level exception class and same readable state in the in-process, gRPC and '
           'gRPC+separate-Pythia deployments' % n, env={'VERIF_SLICE': str(i)}, no_validate=True)
         for i, n in enumerate(_C08_KINDS)
+    ] + [
+        O('C08.custom_policy', 'harness.c08_deploy', 'custom_policy', 120, 300,
+          'a configured (non-default) policy factory is honoured by all three deployments; a policy that raises (ValueError, '
+          'ZeroDivisionError, custom Exception) is reported as the documented RuntimeError in all three and leaves no '
+          'unfinished operation', '4 fault kinds x count 1..2 x 3 pre-states', no_validate=True),
+        O('C08.endpoint_switch', 'harness.c08_deploy', 'endpoint_switch', 90, 300,
+          'a client process that switches environment_variables.server_endpoint talks to the newly selected deployment '
+          '(no cached service): a study created on the first is not found on the second', 'all ordered pairs of the 3 '
+          'deployments', no_validate=True),
     ])
 
 
@@ -478,3 +487,11 @@ PROPS['C15'] = dict(
         O('C15.labels_roundtrip', 'harness.c15_encoding', 'labels_roundtrip', 60, 300,
           'objective labels: to_metrics(convert(m)) == m under either sign convention; missing measurement -> NaN'),
     ])
+
+
+PROPS['C06']['obligations'].append(
+    O('C06.remote_pythia_fault', 'harness.c08_deploy', 'custom_policy', 120, 300,
+      'a policy raising ValueError / ZeroDivisionError / a custom Exception is reported (finished operation with an error -> '
+      'RuntimeError at the client) in-process, over gRPC and through a separate Pythia server, and the next request '
+      'terminates', 'real gRPC deployments; 4 fault kinds x count 1..2 x 3 pre-states', no_validate=True))
+PROPS['C06']['encoded'] += ['PythiaServicer.Suggest over real gRPC (DistributedPythiaVizierServer)', 'vizier_client.get_suggestions']
